@@ -69,7 +69,7 @@ def gen_lifecycle(r, tier):
 class C03(Prop):
     id = "C03"
     lean_modules = ["Fan2go.Props.C03"]
-    fact_modules = ["Fan2go.Props.Facts", "Fan2go.Props.Trans3A", "Fan2go.Props.Trans3B"]
+    fact_modules = ["Fan2go.Props.Facts", "Fan2go.Props.Trans3A", "Fan2go.Props.Trans3B", "Fan2go.Props.Trans3Fan"]
     rule = ("restore: exhaustive {hwmon with/without pwm_enable, file, cmd (real scripts)} x original mode {-1,0,1,2,3,5} x mode write "
             "{applied,refused,ignored} x read-back {ok, unreadable(-1), garbage(0)} x original PWM {0,80,255}, plus random "
             "worlds with arbitrary write faults; failed-start: start-up error after the initialisation sequence; daemon: the "
